@@ -491,6 +491,7 @@ BOUNDARY = {
     "bopt": ("optional enum", lambda: header("bopt", False) + "enum E { Z = 0; A = 1; B = -1; }\nmessage M { optional E e = 1; int32 x = 2; optional E f = 3; }\n"),
     "bmap": ("map with message value", lambda: header("bmap", False) + "message V { int32 x = 1; }\nmessage M { map<string, V> m = 1; }\n"),
     "bmape": ("map with enum value", lambda: header("bmape", False) + "enum E { Z = 0; }\nmessage M { map<int32, E> m = 1; }\n"),
+    "bcapmap": ("capture with maps at field numbers >= 64", lambda: header("bcapmap") + "message MapCap { option (pico.message).capture_unrecognized_fields = true; int32 a = 1; string s = 2; map<int32, string> names = 64; map<string, sint32> weights = 70; }\n"),
     "bcap": ("capture with field number >= 64", lambda: header("bcap") + "message M { option (pico.message).capture_unrecognized_fields = true; int32 a = 64; }\n"),
 }
 
